@@ -196,3 +196,59 @@ func DoTimeout(cfg Config, d time.Duration) (out Outcome, hung bool, dump string
 		return Outcome{}, true, string(buf[:n])
 	}
 }
+
+// QuickMode returns trigger flags (and, for file mode, the yaml text) for a
+// short run of the given mode; pick selects a variant.
+func QuickMode(mode string, pick int) (flags map[string]string, yaml string) {
+	flags = map[string]string{}
+	switch mode {
+	case "constant":
+		flags["rate"] = []string{"20/10ms", "5/5ms", "100/20ms"}[pick%3]
+		flags["distribution"] = []string{"none", "regular", "random"}[pick%3]
+	case "staged":
+		flags["stages"] = []string{"60ms:30,60ms:5", "0s:10,100ms:40", "30ms:8,30ms:8,60ms:0"}[pick%3]
+		flags["iterationFrequency"] = "10ms"
+		flags["distribution"] = "none"
+	case "ramp":
+		flags["start-rate"] = []string{"2/10ms", "40/10ms"}[pick%2]
+		flags["end-rate"] = []string{"40/10ms", "2/10ms"}[pick%2]
+		flags["ramp-duration"] = "120ms"
+		flags["distribution"] = "none"
+	case "gaussian":
+		flags["volume"] = "3000"
+		flags["repeat"] = "1s"
+		flags["iteration-frequency"] = "10ms"
+		flags["peak"] = "100ms"
+		flags["standard-deviation"] = "80ms"
+		flags["distribution"] = "none"
+	case "users":
+	case "file":
+		yaml = `scenario: verifscenario
+default:
+  mode: constant
+  rate: 10/10ms
+  jitter: 0
+  distribution: none
+  concurrency: 4
+limits:
+  max-duration: 2s
+  concurrency: 8
+  max-iterations: 0
+  ignore-dropped: true
+stages:
+  - duration: 80ms
+    mode: constant
+    rate: 12/10ms
+  - duration: 80ms
+    mode: users
+    concurrency: 3
+  - duration: 80ms
+    mode: staged
+    stages: 40ms:20,40ms:2
+    iteration-frequency: 10ms
+`
+	}
+	return flags, yaml
+}
+
+var Modes = []string{"constant", "staged", "ramp", "gaussian", "users", "file"}
